@@ -68,6 +68,20 @@ CLAIMED = {
             'floats as reals; templates T0-T3, T3o, T5, T8f with concrete quantities and symbolic prices/fee; 2-3 symbolic candles; '
             'weighted prices compared cross-multiplied; wallet identity within 1e-9 relative',
             TECH),
+    'C07': ('DESIGN.md C07',
+            'Bounded solver-based check: the aggregation kernels on symbolic windows and symbolic sessions in both simulators with a '
+            'reading strategy; z3 proves every candle a strategy can read (complete or forming, every route timeframe, warm-up included) '
+            'equal to the fold of its aligned window of the stored 1m candles, one candle per started window, and the stored 1m candles '
+            'equal to the input up to the documented gap normalisation.',
+            'floats as reals; windows up to 6; sessions up to 8 minutes with at most 2 gapping opens; timeframes 1m/3m/5m/15m',
+            TECH),
+    'C20': ('DESIGN.md C20',
+            'Bounded solver-based check: _fill_absent_candles with provided candles at symbolic integer minute offsets and symbolic OHLCV; '
+            'CandlesState.add_candle / add_multiple_1m_candles with symbolic integer timestamps against a list model; research.backtest '
+            'with a symbolic distance between the leading candles.',
+            'interval length <= 5 (6), <= 3 (4) provided candles, <= 5 adds; provided candles sorted by time; an older unknown candle may '
+            'be rejected as long as the store is unchanged',
+            TECH),
 }
 
 NOT_YET = {}
